@@ -637,7 +637,10 @@ class Watcher(object):
 
         Return True if ok, False if the watcher must be stopped
         """
-        if self.is_stopped():
+        if self.is_stopped() or self.is_stopping():
+            # a start that is not exclusive (on-demand watchers) can still
+            # be pacing its spawns when a stop comes: the stop would wait
+            # for ever for a worker spawned behind its back
             return True
 
         if not recovery_wid and not self.call_hook('before_spawn'):
